@@ -16,7 +16,7 @@ import (
 )
 
 // C17: BFS over operation sequences on the real RawMessageFilter + real State, in lock-step with ref.Filter.
-func init() { checks["C17"] = c17 }
+func init() { checks["C17:filter"] = c17 }
 
 type c17op struct {
 	Kind string // "recv" | "advance"
